@@ -83,6 +83,10 @@ REAL = [
     "call:accept:2000,call:refused:2000,call:blackhole:300,call:reset:1000,call:cancel:1000",
     "par:call:accept:2000+call:blackhole:400+call:refused:1500+call:accept:2000+call:blackhole:250+call:cancel:800+call:reset:1000+call:accept:2000",
     "par:call:blackhole:200+call:blackhole:350+call:blackhole:500+call:cancel:600,call:accept:1500,par:call:refused:500+call:refused:500",
+    # the engine's own connect timer (300 ms) fires while the I/O thread is still deciding that the connect completed (stalled
+    # inside getpeername): its Close command is stale by the time it is processed - the session handed out must stay live
+    "ct:300,stallgp:700,call:accept:3000,wait:400,call:accept:3000",
+    "ct:250,call:accept:2000,stallgp:600,call:accept:3000,wait:300,call:refused:1000",
 ]
 
 
